@@ -558,14 +558,18 @@ func (g *Gen) genReq(n *Node) {
 // GenNode generates a schema tree of the given remaining depth.
 func (g *Gen) GenNode(depth int, root bool) *Node {
 	if !root && g.Cfg.Mode == "parse" && g.p(g.Cfg.PPre, "pre") {
-		n := &Node{Kind: KPre, PreFn: pick(g, []string{"trim", "split", "error", "any", "trim"}, "prefn")}
+		n := &Node{Kind: KPre, PreFn: pick(g, []string{"trim", "maybe", "split", "error", "any", "trim", "maybe"}, "prefn")}
 		saved := g.Cfg
 		g.Cfg.PPre, g.Cfg.PCoercer, g.Cfg.LeafKinds = 0, 0, []string{KString}
-		if n.PreFn == "split" {
+		switch {
+		case n.PreFn == "split":
 			n.Elem = &Node{Kind: KSlice, Elem: g.GenNode(0, false)}
 			g.wit[n.Elem] = Int(2)
 			g.genReq(n.Elem)
-		} else {
+		case n.PreFn != "any" && g.p(0.25, "preptr"):
+			n.Elem = &Node{Kind: KPtr, Elem: g.GenNode(0, false)} // the function's output goes to a pointer schema
+			g.genReq(n.Elem)
+		default:
 			n.Elem = g.GenNode(0, false)
 		}
 		g.Cfg = saved
@@ -640,6 +644,17 @@ func (g *Gen) GenNode(depth int, root bool) *Node {
 				d.L = append(d.L, g.leafValue(n.Elem))
 			}
 			n.Def = &d
+		} else if n.Elem.Kind == KSlice && IsPrimitive(n.Elem.Elem.Kind) && g.p(g.Cfg.PDefault, "sdef2") {
+			// a nested default: [][]T
+			d := Val{T: "list"}
+			for i, k := 0, g.intn(1, 2, "sdl2"); i < k; i++ {
+				inner := Val{T: "list"}
+				for j, m := 0, g.intn(1, 3, "sdl3"); j < m; j++ {
+					inner.L = append(inner.L, g.leafValue(n.Elem.Elem))
+				}
+				d.L = append(d.L, inner)
+			}
+			n.Def = &d
 		}
 		g.genCoercer(n)
 		g.genPosts(n, "spost")
@@ -711,8 +726,8 @@ func (g *Gen) GenNode(depth int, root bool) *Node {
 		g.genPosts(n, "stpost")
 	case kind == KPtr:
 		n.Elem = g.GenNode(depth-1, false)
-		for n.Elem.Kind == KPtr {
-			n.Elem = n.Elem.Elem
+		for n.Elem.Kind == KPtr && (n.Elem.Elem.Kind == KPtr || !g.p(0.5, "ptrptr")) {
+			n.Elem = n.Elem.Elem // at most two pointer levels, and those only sometimes
 		}
 		g.genReq(n)
 	case kind == KCustom:
@@ -859,9 +874,16 @@ func (g *Gen) GenTyped(n *Node) Val {
 			}
 			return Str(strings.Join(parts, ","))
 		}
-		v := g.leafValue(n.Elem)
+		leaf := n.Elem
+		if leaf.Kind == KPtr {
+			leaf = leaf.Elem
+		}
+		v := g.leafValue(leaf)
 		if n.PreFn == "trim" && g.p(0.5, "pad") {
 			v = Str("  " + v.S + " ")
+		}
+		if n.PreFn == "maybe" && g.p(0.3, "bad") {
+			v = Str(v.S + "bad")
 		}
 		if g.p(0.1, "wrongtype") {
 			return Int(7) // not the F the function expects
